@@ -34,7 +34,9 @@ REQUIRED = ["Sqfs.C16.rebuild_fstree_partial", "Sqfs.C16.split_print_roundtrip",
             "Sqfs.C16.describe_roundtrip", "Sqfs.C16.describe_newline_sound", "Sqfs.C16.describe_newline_refusal",
             "Sqfs.C16.describe_newline_same", "Sqfs.C16.handle_print_newline_sound",
             "Sqfs.C16.split_never_fuel", "Sqfs.C16.split_dst_le_src", "Sqfs.C16.parse_print_dec",
-            "Sqfs.C16.parse_print_mode", "Sqfs.C16.device_number_roundtrip"]
+            "Sqfs.C16.parse_print_mode", "Sqfs.C16.device_number_roundtrip", "Sqfs.C16.describe_prints_no_link",
+            "Sqfs.C16.exComps_good", "Sqfs.C16.exNode_wf", "Sqfs.C16.exUr_lineSafe", "Sqfs.C16.exFs_rootOk", "Sqfs.C16.exLF_rootOkN",
+            "Sqfs.C16.exTab_rootOkN"]
 
 SP, TAB, DQ, BS, CR, HASH, LF = 0x20, 0x09, 0x22, 0x5c, 0x0d, 0x23, 0x0a
 CORE = [SP, TAB, DQ, BS, CR, HASH]
